@@ -86,6 +86,28 @@ class FInt:
     def to_fp(self):
         return z3.fpSignedToFP(RNE, self.e, F64)
 
+    def _divmod_const(self, o):
+        if not isinstance(o, (int, np.integer)) or int(o) <= 0:
+            return None
+        o = z3.BitVecVal(int(o), W)
+        # Python floor semantics for a positive divisor (signed bit-vector division truncates)
+        q0 = self.e / o
+        r0 = z3.SRem(self.e, o)
+        adj = z3.And(r0 != 0, self.e < 0)
+        return FInt(z3.If(adj, q0 - 1, q0)), FInt(z3.If(adj, r0 + o, r0))
+
+    def __divmod__(self, o):
+        r = self._divmod_const(o)
+        return NotImplemented if r is None else r
+
+    def __floordiv__(self, o):
+        r = self._divmod_const(o)
+        return NotImplemented if r is None else r[0]
+
+    def __mod__(self, o):
+        r = self._divmod_const(o)
+        return NotImplemented if r is None else r[1]
+
     def __lt__(self, o):
         return FBool(self.e < bv(o))
 
